@@ -22,6 +22,8 @@ fn run(seed: u64, n: usize, steps: usize) -> Option<String> {
     let bounds: &'static [Magnitude] = Box::leak((0..n as i64).map(|i| i * 10 - 50).collect::<Vec<_>>().into_boxed_slice());
     let local = ObservationBag::new(bounds);
     let global = ObservationBagSync::new(bounds);
+    // a second synchronised bag that receives every observation directly (the pull-model path)
+    let direct = ObservationBagSync::new(bounds);
     let mut model_count = 0u64;
     let mut model_sum = 0i64;
     let mut model_buckets = vec![0u64; n];
@@ -45,6 +47,7 @@ fn run(seed: u64, n: usize, steps: usize) -> Option<String> {
             };
             let cnt = (rng.next() % 4) as usize;
             local.insert(m, cnt);
+            direct.insert(m, cnt);
             trace.push(format!("observe({m},x{cnt})"));
             if cnt > 0 {
                 model_count = model_count.wrapping_add(cnt as u64);
@@ -56,6 +59,11 @@ fn run(seed: u64, n: usize, steps: usize) -> Option<String> {
             let snap = local.snapshot();
             if snap.count != model_count || snap.sum != model_sum || &*snap.bucket_counts != &model_buckets[..] {
                 return Some(format!("buckets={n}: after {} the local bag differs from the observations made", trace.join(" ")));
+            }
+            let snap = direct.snapshot();
+            if snap.count != model_count || snap.sum != model_sum || &*snap.bucket_counts != &model_buckets[..] {
+                let bad = (0..n).find(|&i| snap.bucket_counts[i] != model_buckets[i]);
+                return Some(format!("buckets={n} (bounds -50, -40, ..): after {} the synchronised bag that received the observations directly differs (count {} vs {}, first differing bucket {:?})", trace[trace.len().saturating_sub(6)..].join(" "), snap.count, model_count, bad));
             }
         }
     }
